@@ -69,7 +69,8 @@ pub enum Layout {
     /// of pairwise different symbolic items (one z3 distinct, one hash class per pool item), so
     /// the equality pattern is fixed by the shape and there is a single path.  `pad`: bits 0-1 /
     /// 2-3 = number of extra (different) items in front of the old / new range (sub-ranges at
-    /// unequal offsets).
+    /// unequal offsets); bit 4 = offset lookups that are valid only on the ranges instead of slices; bit 5 = lookups
+    /// into one interned pool shared by both sides (equal items are the same object in memory).
     Long { fam: u8, k: u16, var: u8, pad: u8 },
 }
 
@@ -175,6 +176,40 @@ pub fn long_pattern(fam: u8, k: usize, var: u8) -> (Vec<u32>, Vec<u32>, &'static
                 (base, dup, name)
             }
         }
+        // lopsided: 3 items against k different ones (optionally behind a common prefix of 12)
+        7 => {
+            let few: Vec<u32> = vec![1, 2, 3];
+            let mut many: Vec<u32> = (0..k as u32).map(|i| 100 + i).collect();
+            let pre: Vec<u32> = (0..12u32).map(|i| 50 + i).collect();
+            match var {
+                0 => (few, many, "3 items against k different ones, nothing in common"),
+                1 => {
+                    many[k / 2] = 2;
+                    (few, many, "3 items against k different ones, the middle one in common")
+                }
+                2 => (many, few, "k different items against 3, nothing in common"),
+                _ => {
+                    many[k / 3] = 3;
+                    (cat(&[&pre, &few]), cat(&[&pre, &many]), "a common prefix of 12, then 3 items against k different ones with one in common")
+                }
+            }
+        }
+        // pseudo-random sequences over a small alphabet (2..=4 symbols): a fixed generator, the
+        // variant is its seed; lengths k and k-2..=k+2
+        8 => {
+            let mut state: u64 = 0x9E37_79B9_7F4A_7C15u64.wrapping_mul(k as u64 + 1) ^ (var as u64).wrapping_mul(0xD1B5_4A32_D192_ED03);
+            let mut next = move || {
+                state ^= state << 13;
+                state ^= state >> 7;
+                state ^= state << 17;
+                state
+            };
+            let alpha = 2 + (var % 3) as u64;
+            let m = (k as i64 + (next() % 5) as i64 - 2).max(1) as usize;
+            let o: Vec<u32> = (0..k).map(|_| (next() % alpha) as u32).collect();
+            let n: Vec<u32> = (0..m).map(|_| (next() % alpha) as u32).collect();
+            (o, n, "pseudo-random sequences over 2..=4 symbols (fixed xorshift generator, variant = seed)")
+        }
         // k different items, every 16th replaced
         _ => {
             let o: Vec<u32> = (0..k as u32).collect();
@@ -197,10 +232,35 @@ pub fn long_layouts(thorough: bool) -> Vec<Layout> {
         (3, 301, 0), (3, 401, 1), (3, 201, 2), (4, 300, 0), (4, 128, 1), (4, 101, 2), (4, 257, 3), (4, 256, 4), (4, 129, 5),
         (5, 101, 0), (5, 257, 1), (5, 300, 2), (5, 99, 3), (6, 400, 0),
     ];
-    for &(fam, k, var) in quick.iter().chain(if thorough { more.iter() } else { [].iter() }) {
+    // mid-sized inputs (8..64 items a side): between the fully symbolic shapes and the long ones
+    let mid: &[(u8, u16, u8)] = &[
+        (0, 4, 0), (0, 6, 1), (0, 9, 2), (0, 15, 0), (1, 4, 0), (1, 8, 1), (1, 12, 2), (1, 5, 3), (2, 9, 0), (2, 17, 1), (2, 24, 0), (2, 33, 2), (2, 48, 1),
+        (3, 9, 0), (3, 17, 1), (3, 25, 2), (3, 33, 0), (4, 8, 0), (4, 9, 1), (4, 11, 2), (4, 16, 3), (4, 17, 0), (4, 31, 4), (4, 33, 0), (4, 16, 5),
+        (5, 9, 0), (5, 16, 1), (5, 20, 2), (5, 33, 3), (5, 63, 0), (5, 64, 1), (6, 17, 0), (6, 40, 0), (6, 64, 0),
+        (7, 30, 0), (7, 40, 1), (7, 33, 2), (7, 30, 3), (7, 300, 1),
+    ];
+    for &(fam, k, var) in mid.iter().chain(quick.iter()).chain(if thorough { more.iter() } else { [].iter() }) {
         v.push(Layout::Long { fam, k, var, pad: 0 });
     }
+    // pseudo-random small-alphabet sequences of 12..60 items (raw scripts of dozens of ops)
+    let seed = std::env::var("VERIF_SEED").ok().and_then(|s| s.parse::<u64>().ok()).unwrap_or(0);
+    for i in 0..(if thorough { 240u64 } else { 90 }) {
+        let k = 12 + ((i * 7 + seed * 13) % 49) as u16;
+        let var = ((i * 5 + seed) % 251) as u8;
+        v.push(Layout::Long { fam: 8, k, var, pad: if i % 9 == 4 { 0b0110 } else { 0 } });
+    }
+    // offset lookups (an Index type other than a slice), also at unequal bases
+    // interned lookups sharing one pool
+    for &(fam, k, var, pad) in &[(0u8, 4u16, 0u8, 32u8), (0, 9, 2, 32), (3, 9, 1, 32), (5, 9, 0, 32), (4, 9, 1, 32), (1, 8, 1, 32 + 0b0100), (0, 20, 0, 32), (5, 130, 1, 32), (6, 40, 0, 32), (2, 33, 1, 32)] {
+        v.push(Layout::Long { fam, k, var, pad });
+    }
+    for &(fam, k, var, pad) in &[(0u8, 9u16, 2u8, 16u8), (2, 33, 2, 16), (3, 17, 1, 16 + 0b0110), (4, 17, 0, 16), (5, 20, 2, 16 + 0b0001), (1, 60, 1, 16), (2, 130, 2, 16 + 0b1000), (4, 150, 0, 16)] {
+        v.push(Layout::Long { fam, k, var, pad });
+    }
     // sub-ranges at unequal offsets
+    for &(fam, k, var, pad) in &[(7u8, 30u16, 0u8, 0b1111u8), (7, 40, 1, 0b1111), (7, 33, 2, 0b0111), (7, 30, 3, 0b0101), (2, 24, 0, 0b1111), (6, 40, 0, 0b1010)] {
+        v.push(Layout::Long { fam, k, var, pad });
+    }
     for &(fam, k, var, pad) in &[(0u8, 20u16, 0u8, 0b0110u8), (2, 300, 0, 0b0001), (4, 150, 0, 0b1000), (5, 130, 0, 0b0111), (1, 75, 0, 0b0100), (3, 101, 1, 0b1001)] {
         v.push(Layout::Long { fam, k, var, pad });
     }
@@ -267,10 +327,29 @@ impl Layout {
     }
 }
 
+/// An `Index<usize>` implementation over an interned pool: position i holds `&pool[ids[i]]`,
+/// so equal items at different positions (and on both sides, which share the pool) are the
+/// very same object in memory.  Only positions `base..base+len` are valid.
+pub struct Pooled {
+    pub base: usize,
+    pub pool: std::rc::Rc<Vec<Sym>>,
+    pub ids: Vec<usize>,
+}
+impl Index<usize> for Pooled {
+    type Output = Sym;
+    fn index(&self, i: usize) -> &Sym {
+        if i < self.base || i - self.base >= self.ids.len() {
+            panic!("pooled lookup indexed at {} outside {}..{}", i, self.base, self.base + self.ids.len());
+        }
+        &self.pool[self.ids[i - self.base]]
+    }
+}
+
 /// Concrete sequences for one run.
 pub enum Seq {
     Slice(Vec<Sym>),
     Offset(Offset),
+    Pooled(Pooled),
 }
 impl Index<usize> for Seq {
     type Output = Sym;
@@ -278,6 +357,7 @@ impl Index<usize> for Seq {
         match self {
             Seq::Slice(v) => &v[i],
             Seq::Offset(o) => &o[i],
+            Seq::Pooled(p) => &p[i],
         }
     }
 }
@@ -347,6 +427,33 @@ pub fn make_inputs(n: usize, m: usize, layout: Layout) -> Inputs {
             }
             let oi: Vec<Sym> = po.iter().map(|x| pool[x]).collect();
             let ni: Vec<Sym> = pn.iter().map(|x| pool[x]).collect();
+            if pad & 32 != 0 {
+                // interned lookups: both sides index into one shared pool (equal items are the same object)
+                let keys: Vec<u32> = pool.keys().copied().collect();
+                let store: std::rc::Rc<Vec<Sym>> = std::rc::Rc::new(keys.iter().map(|k| pool[k]).collect());
+                let at = |x: &u32| keys.binary_search(x).unwrap();
+                let (bo, bn) = (pre_o, 2 + pre_n);
+                return Inputs {
+                    or: bo..bo + oi.len(),
+                    nr: bn..bn + ni.len(),
+                    old: Seq::Pooled(Pooled { base: bo, pool: store.clone(), ids: po.iter().map(at).collect() }),
+                    new: Seq::Pooled(Pooled { base: bn, pool: store, ids: pn.iter().map(at).collect() }),
+                    old_items: oi,
+                    new_items: ni,
+                };
+            }
+            if pad & 16 != 0 {
+                // offset lookups valid only on the ranges (an Index type other than a slice)
+                let (bo, bn) = (5 + pre_o, 1 + pre_n);
+                return Inputs {
+                    or: bo..bo + oi.len(),
+                    nr: bn..bn + ni.len(),
+                    old: Seq::Offset(Offset { base: bo, items: oi.clone() }),
+                    new: Seq::Offset(Offset { base: bn, items: ni.clone() }),
+                    old_items: oi,
+                    new_items: ni,
+                };
+            }
             let o: Vec<Sym> = pads[..pre_o].iter().chain(oi.iter()).copied().collect();
             let nw: Vec<Sym> = pads[pre_o..].iter().chain(ni.iter()).copied().collect();
             Inputs {
